@@ -105,17 +105,18 @@ def selftest(args, tier="quick"):
         print("selftest controls: %d runs, %d controls with a false alarm" % (n, bad))
         return 1 if bad else 0
     props = [a for a in args if re.fullmatch(r"C\d\d", a)] or ["C%02d" % i for i in range(1, 21)]
+    only_reverts = "reverts" in args
     ev = tempfile.mkdtemp(prefix="vrf-selfev.", dir="/var/tmp")
     bad = 0; n = 0
     try:
         # 1. silent on the unchanged tree
-        for p in props:
+        for p in ([] if only_reverts else props):
             rc, rules = _run(p, engine.REPO, ev); n += 1
             ok = rc == 0
             print("%-8s unchanged tree: %s" % (p, "silent" if ok else "ALARM %s" % rules)); bad += not ok
         # 2. seeded changes
         seeded = os.path.join(VERIF, "seeded")
-        for sid in sorted(os.listdir(seeded)):
+        for sid in ([] if only_reverts else sorted(os.listdir(seeded))):
             patch = os.path.join(seeded, sid, "patch.diff")
             if not os.path.exists(patch): continue
             p = sid[:3]
